@@ -129,7 +129,9 @@ Step1(sl) ==
   \/ \E o \in StrWrapOps \cap Ops :
         \E i \in (IF o \in ForeignWrap THEN NonNil(sl) ELSE Targets(sl)) :
           \E s \in (IF o \in {"Wrap", "WithMessage"} THEN SH \cup {E}
-                    ELSE IF o \in {"PkgWithMessage", "PkgWrap"} THEN SH ELSE SH2) :
+                    ELSE IF o \in {"PkgWithMessage", "PkgWrap"} THEN SH
+                    \* (an empty syscall name is not "regular text = non-empty")
+                    ELSE IF o = "OsSyscallError" THEN SH2 \ {E} ELSE SH2) :
             Take(Step(o, i, <<i>>, s, E, E, 0, E))
   \/ \E o \in BareWrapOps \cap Ops :
         \E i \in (IF o \in ForeignWrap THEN NonNil(sl) ELSE Targets(sl)) : Take(Step(o, i, <<i>>, E, E, E, 0, E))
